@@ -19,6 +19,9 @@ type Phase struct {
 	Eval func(w *W, input, aux string)
 	// Serial phases run in shard 0 only (global closures, small finite tables).
 	Serial bool
+	// LongEval: one Eval is itself a long exploration (many executions); a worker that is killed while
+	// inside it says nothing about the implementation, so the driver never turns that into a `hang`.
+	LongEval bool
 	// ThoroughOnly phases are skipped in the quick tier.
 	ThoroughOnly bool
 }
